@@ -53,8 +53,8 @@ type Net struct {
 	// DeliverHook, when set, is called (under the net lock) after bytes were handed
 	// to a reader: pipe, direction and the stream offset delivered so far.
 	DeliverHook func(pipe int, ws bool, dir string, off int64)
-	Fired     FaultStats
-	Probes    map[string]int
+	Fired       FaultStats
+	Probes      map[string]int
 }
 
 type dialState struct {
